@@ -274,7 +274,10 @@ func TestChanLin(t *testing.T) {
 // A Buffer consumer shared by several goroutines (C02): linearizability of Get/Commit/Rollback/Diff
 // against the sequential (put, committed, uncommitted) model, with concurrent Puts as operations.
 
-type slState struct{ n, committed, delta int }
+type slState struct {
+	n, committed, delta int
+	closed              bool // Close has taken effect (it may still be waiting for uncommitted reads)
+}
 
 type slIn struct {
 	op string // "put" | "get" | "commit" | "rollback" | "diff"
@@ -295,12 +298,20 @@ var slModel = porcupine.Model{
 			s.n += i.k
 			return !o.err, s
 		case "get":
-			if o.err || s.committed+s.delta >= s.n {
+			if o.err {
+				return s.closed, s // a Get may only fail once the consumer is being closed
+			}
+			if s.closed || s.committed+s.delta >= s.n {
 				return false, s
 			}
 			ok := o.val == s.committed+s.delta+1
 			s.delta++
 			return ok, s
+		case "close-begin":
+			// the instant at which a concurrent Close takes effect (reads fail from then on); Close itself returns
+			// later, once nothing is uncommitted (checked outside the model)
+			s.closed = true
+			return true, s
 		case "commit":
 			if s.delta == 0 {
 				return o.err, s
@@ -315,7 +326,10 @@ var slModel = porcupine.Model{
 			s.delta = 0
 			return !o.err, s
 		case "diff":
-			return !o.err && o.val == s.n-(s.committed+s.delta), s
+			if o.err {
+				return s.closed, s // not registered any more: only after the close
+			}
+			return o.val == s.n-(s.committed+s.delta), s
 		}
 		return false, s
 	},
@@ -352,13 +366,19 @@ func TestConsLin(t *testing.T) {
 		}
 		cooldown := rapid.SampledFrom([]time.Duration{0, 50 * time.Microsecond}).Draw(t, "cooldown")
 		prodYield := rapid.IntRange(0, 3).Draw(t, "prodYield")
-		trace := []string{fmt.Sprintf("scripts=%v batches=%v cooldown=%v prodYield=%d", scripts, batches, cooldown, prodYield)}
+		// in a third of the cases the consumer is closed by yet another goroutine while the scripts are running
+		closeAfter := -1
+		if rapid.IntRange(0, 2).Draw(t, "withClose") == 0 {
+			closeAfter = rapid.IntRange(0, 12).Draw(t, "closeAfterYields")
+		}
+		trace := []string{fmt.Sprintf("scripts=%v batches=%v cooldown=%v prodYield=%d closeAfter=%d", scripts, batches, cooldown, prodYield, closeAfter)}
 		vkit.CaseStart(func() string { return strings.Join(trace, " ; ") })
 		var (
-			clock  atomic.Int64
-			mu     sync.Mutex
-			ops    []porcupine.Operation
-			panics []string
+			clock    atomic.Int64
+			mu       sync.Mutex
+			ops      []porcupine.Operation
+			panics   []string
+			closeErr string
 		)
 		record := func(client int, in slIn, call int64, out slOut) {
 			ret := clock.Add(1)
@@ -427,12 +447,42 @@ func TestConsLin(t *testing.T) {
 					}
 				}(g)
 			}
+			closeDone := make(chan error, 1)
+			if closeAfter >= 0 {
+				go func() {
+					defer guard()
+					for i := 0; i < closeAfter; i++ {
+						runtime.Gosched()
+					}
+					call := clock.Add(1)
+					err := c.Close() // waits until nothing is uncommitted
+					record(200, slIn{op: "close-begin"}, call, slOut{})
+					closeDone <- err
+				}()
+			}
 			wg.Wait()
-			_ = c.Rollback()
-			_ = c.Close()
+			_ = c.Rollback() // releases a Close that waits for uncommitted reads
+			if closeAfter >= 0 {
+				if err := <-closeDone; err != nil {
+					closeErr = fmt.Sprintf("the only Close call returned %v", err)
+				}
+				select {
+				case <-c.Done():
+				default:
+					closeErr = "Done is not closed after Close returned"
+				}
+				if _, ok := b.Diff(c); ok {
+					closeErr = "Diff still reports the consumer as registered after Close returned"
+				}
+			} else {
+				_ = c.Close()
+			}
 			_ = b.Close()
 			time.Sleep(time.Hour)
 		})
+		if closeErr != "" {
+			vkit.Fail(t, "C12/shared-consumer-close", "%s\ncase: %v", closeErr, trace)
+		}
 		if len(panics) > 0 {
 			vkit.Fail(t, "C02/panic", "panic while several goroutines share one consumer: %v\ncase: %v", panics, trace)
 		}
@@ -460,6 +510,9 @@ func TestConsLin(t *testing.T) {
 		cls := []string{fmt.Sprintf("goroutines:%d", nG)}
 		if overlap {
 			cls = append(cls, "ops-overlapped")
+		}
+		if closeAfter >= 0 {
+			cls = append(cls, "concurrent-close")
 		}
 		st.Case(trace, overlap, cls...)
 	})
